@@ -232,7 +232,9 @@ theorem burnValidators_valsStep (s s' : State) (h : burnValidators s = some s') 
     simp only [] at he
     split at he
     · cases he
-    · cases he; exact hs1.trans (slash_valsStep _ _ _ _ _)
+    · split at he
+      · cases he
+      · cases he; exact hs1.trans (slash_valsStep _ _ _ _ _)
 
 theorem updateValidators_valsStep (s s' : State) (ups : List (Addr × Int))
     (h : updateValidators s = some (s', ups)) : ValsStep s s' := by
